@@ -135,6 +135,8 @@ struct ThreadLocalCache {
     thread_id: ThreadId,
     /// Current hot allocation area
     hot_area: Option<HotArea>,
+    /// Exhausted hot areas: blocks carved from them may still be live, so they are kept until the cache goes away
+    retired_areas: Vec<HotArea>,
     /// Free lists for each size class
     free_lists: Vec<Vec<NonNull<u8>>>,
     /// Lazy synchronization counter
@@ -209,6 +211,7 @@ impl ThreadLocalCache {
         Self {
             thread_id: thread::current().id(),
             hot_area: None,
+            retired_areas: Vec::new(),
             free_lists: vec![Vec::new(); TLS_SIZE_CLASSES.len()],
             frag_inc: 0,
             global_pool,
@@ -219,7 +222,8 @@ impl ThreadLocalCache {
     /// Allocate memory from thread-local cache
     fn allocate(&mut self, size: usize, config: &ThreadLocalPoolConfig) -> Result<NonNull<u8>> {
         // Try size class free list first
-        if let Some(list_index) = self.size_to_list_index(size) {
+        let list_index = self.size_to_list_index(size);
+        if let Some(list_index) = list_index {
             if let Some(ptr) = self.free_lists[list_index].pop() {
                 if let Some(stats) = &self.stats {
                     stats.cache_hits.fetch_add(1, Ordering::Relaxed);
@@ -227,6 +231,8 @@ impl ThreadLocalCache {
                 return Ok(ptr);
             }
         }
+        // Blocks are recycled per size class: carve the full class size, not the request
+        let size = list_index.map_or(size, |i| TLS_SIZE_CLASSES[i]);
 
         // Try hot area allocation
         if let Some(ref mut hot_area) = self.hot_area {
@@ -278,7 +284,9 @@ impl ThreadLocalCache {
             Ok(mut hot_area) => {
                 // Try to allocate from new hot area
                 if let Some(ptr) = hot_area.try_allocate(size) {
-                    self.hot_area = Some(hot_area);
+                    if let Some(old) = self.hot_area.replace(hot_area) {
+                        self.retired_areas.push(old);
+                    }
                     
                     if let Some(stats) = &self.stats {
                         stats.arena_allocations.fetch_add(1, Ordering::Relaxed);
